@@ -16,7 +16,7 @@ import codec
 from codec import canon_inst, canon_tree, text
 from proto import dstr
 from gen.instances import Gen, concrete_classes
-from corr.agg_common import fromtree_line, totree_line, quiet, model_ok_err
+from corr.agg_common import blame_class, fromtree_line, totree_line, quiet, model_ok_err
 
 RULE = ("exhaustive: every concrete class x every declared child (element, sub-aggregate, repeated member) — "
         "an instance containing that child is generated (other optional parts random), written and read back; "
@@ -101,7 +101,8 @@ def run(ctx):
             lines.append(fromtree_line(tree))
             if r_back[0] != "ok":
                 ctx.violate("child_not_read_back", case,
-                            f"{name}.{attr}: the library's reader rejects what its writer wrote", {"cls": name, "attr": attr})
+                            f"{name}.{attr}: the library's reader rejects what its writer wrote",
+                            {"cls": blame_class(inst), "attr": attr})
             else:
                 back = r_back[1]
                 if canon_inst(back) != canon_inst(inst):
